@@ -78,7 +78,7 @@ def dynamical_coring(trajs, lagtime, iterative=True):
 
     # catch if lagtime <=1
     return StateTraj(
-        _dynamical_coring(cored_trajs, lagtime, iterative),
+        list(_dynamical_coring(cored_trajs, lagtime, iterative)),
     )
 
 
